@@ -384,6 +384,11 @@ Conf_C02 ==
   /\ E.ev = "delsearch" =>
        (WellFormedQ(E.q) => /\ E.c = "ok" /\ E.len = Cardinality(MatchesQ(pstore, E.q)))
 
+\* (the search-delete clause alone: used to decide whether a history recorded with the PINNED release can be adopted -
+\* its search-deletes must have deleted what the abstract map says, its reads are not judged)
+Conf_C02D ==
+  At => (E.ev = "delsearch" => (WellFormedQ(E.q) => /\ E.c = "ok" /\ E.len = Cardinality(MatchesQ(pstore, E.q))))
+
 \* C03 uniqueness: never violated, never over-enforced
 Conf_C03 ==
   At =>
@@ -722,8 +727,15 @@ Conf_Drop ==
           /\ "xdir" \in DOMAIN E => XDirOK(E.xdir, Empty))
 
 \* C19 (file part): whatever a file of the collection directory contains, calls return; none panics
+\* a search that has to read every object file (unindexed field) fails, or has read them all: it never hands back the
+\* objects it got before an unreadable file as if they were the answer
+ScanOK(sc) ==
+  ("count_c" \in DOMAIN sc /\ sc.count_c = "ok") =>
+     /\ ("c" \in DOMAIN sc /\ sc.c = "ok") => sc.n = sc.count
+     /\ ("and_c" \in DOMAIN sc /\ sc.and_c = "ok") => sc.and_n = sc.count
 Conf_C19F ==
-  At => (E.ev = "corrupt" => \A i \in 1..Len(E.res) : E.res[i][2] # "panic")
+  At => (E.ev = "corrupt" => /\ \A i \in 1..Len(E.res) : E.res[i][2] # "panic"
+                             /\ "scan" \in DOMAIN E => ScanOK(E.scan))
 
 \* C10 asynchronous writes: visible at once (ReadsOK in async configurations), flushed by
 \* threshold / timeout without further calls, complete and committed at Close / FlushAllAndCommit,
